@@ -268,7 +268,8 @@ def run(ctx):
             idx.append(i)
     model = {}
     try:
-        outs = ctx.coq(exprs, ['CoreDump', 'T_CoreDumpHooks'])
+        from props.c05 import coq_eval_sharded
+        outs = coq_eval_sharded(ctx, exprs, ['CoreDump', 'T_CoreDumpHooks'], shard=50)     # <= 6 coqc processes: memory
         model = dict(zip(idx, outs))
     except Exception as e:
         ctx.broken_tie('model evaluation failed: %s' % str(e)[:800])
